@@ -253,3 +253,63 @@ def expand(fn_node: ast.AST, e: ast.AST, depth: int = 4) -> ast.AST:
 def xnorm(fn_node: ast.AST, e: ast.AST) -> str:
     """norm() of the copy-propagated expression."""
     return norm(expand(fn_node, e))
+
+
+# ---- string templates: what text an expression builds, independent of how it is spelled ----------------
+
+
+def str_template(fn_node: ast.AST, e: ast.AST) -> list[tuple[str, str]]:
+    """[("lit", text) | ("var", normalised expression[:spec])]: the text an expression builds, whether it is written as an
+    f-string, with +, str.format() or sep.join((...)); locals are copy-propagated first."""
+    import string as _string
+
+    def walk(x: ast.AST) -> list[tuple[str, str]]:
+        if isinstance(x, ast.Constant) and isinstance(x.value, str):
+            return [("lit", x.value)]
+        if isinstance(x, ast.JoinedStr):
+            out: list[tuple[str, str]] = []
+            for v in x.values:
+                if isinstance(v, ast.Constant):
+                    out.append(("lit", str(v.value)))
+                elif isinstance(v, ast.FormattedValue):
+                    spec = ""
+                    if v.format_spec is not None:
+                        spec = ":" + "".join(str(p.value) if isinstance(p, ast.Constant) else "{" + norm(p) + "}" for p in v.format_spec.values)  # type: ignore[attr-defined]
+                    inner = walk(v.value) if spec == "" and v.conversion in (-1, 115) else None
+                    out += inner if inner and all(k == "lit" for k, _ in inner) else [("var", norm(v.value) + spec)]
+            return out
+        if isinstance(x, ast.BinOp) and isinstance(x.op, ast.Add):
+            return walk(x.left) + walk(x.right)
+        if isinstance(x, ast.Call) and isinstance(x.func, ast.Attribute) and x.func.attr == "format" and isinstance(x.func.value, ast.Constant) and isinstance(x.func.value.value, str) and not x.keywords:
+            out = []
+            auto = 0
+            try:
+                for lit, field, spec, _conv in _string.Formatter().parse(x.func.value.value):
+                    if lit:
+                        out.append(("lit", lit))
+                    if field is not None:
+                        i = auto if field == "" else int(field)
+                        auto += 1
+                        out.append(("var", norm(x.args[i]) + (":" + spec if spec else "")))
+                return out
+            except (ValueError, IndexError):
+                return [("var", norm(x))]
+        if isinstance(x, ast.Call) and isinstance(x.func, ast.Attribute) and x.func.attr == "join" and isinstance(x.func.value, ast.Constant) and isinstance(x.func.value.value, str) and len(x.args) == 1 and isinstance(x.args[0], (ast.Tuple, ast.List)):
+            out = []
+            for i, el in enumerate(x.args[0].elts):
+                if i:
+                    out.append(("lit", x.func.value.value))
+                out += [("var", "*" + norm(el.value))] if isinstance(el, ast.Starred) else walk(el)
+            return out
+        if isinstance(x, ast.Call) and isinstance(x.func, ast.Name) and x.func.id == "str" and len(x.args) == 1:
+            return walk(x.args[0])
+        return [("var", norm(x))]
+
+    parts = walk(expand(fn_node, e))
+    merged: list[tuple[str, str]] = []
+    for k, v in parts:
+        if k == "lit" and merged and merged[-1][0] == "lit":
+            merged[-1] = ("lit", merged[-1][1] + v)
+        elif not (k == "lit" and v == ""):
+            merged.append((k, v))
+    return merged
